@@ -982,6 +982,7 @@ func runReopenConc(rc *RunCtx) {
 		return n
 	}
 	nPipes := 1 + tp.Choose(3, "npipes")
+	var defs []el.Pipeline
 	var listed []*reopenNode
 	var desc []string
 	for p := 0; p < nPipes; p++ {
@@ -996,6 +997,7 @@ func runReopenConc(rc *RunCtx) {
 		}
 		listed = append(listed, f, m, k)
 		desc = append(desc, fmt.Sprintf("%s/p%d", typ, p))
+		defs = append(defs, el.Pipeline{PipelineID: el.PipelineID(fmt.Sprintf("p%d", p)), EventType: el.EventType(typ), NodeIDs: ids})
 	}
 	var failing *reopenNode
 	if tp.Choose(3, "failnode") == 0 {
@@ -1024,6 +1026,25 @@ func runReopenConc(rc *RunCtx) {
 			}
 			calls[c].err = b.Reopen(rctx)
 			calls[c].done = true
+		})
+	}
+	// meanwhile the pipelines may be registered again with their own, unchanged definitions: each of
+	// them is registered before, during and after every Reopen call
+	if tp.Choose(2, "reregistrar") == 0 {
+		k := 1 + tp.Choose(5, "nrereg")
+		order := make([]int, k)
+		for i := range order {
+			order[i] = tp.Choose(len(defs), "rereg")
+		}
+		sim.Spawn("reregistrar", func() {
+			for _, i := range order {
+				simrt.Yield("rereg:step")
+				nids := append([]el.NodeID(nil), defs[i].NodeIDs...)
+				if err := b.RegisterPipeline(el.Pipeline{PipelineID: defs[i].PipelineID, EventType: defs[i].EventType, NodeIDs: nids}); err != nil {
+					rc.Failf("C20.setup", "rereg", "re-registering %v failed: %v", defs[i], err)
+				}
+				simrt.Probe("reopen.concurrent-reregistration")
+			}
 		})
 	}
 	sim.Run(nil)
